@@ -31,8 +31,8 @@ CHECKS = {
  "C15": ("exploration", "TLC trace validation of resource views",
          "get_mut, view_resources and query resource views in 14 subset/order/mutability variants over 3 token-carrying resources; TLC checks identity (token) and value of each returned resource, visibility of writes, and that no entity operation, clone or round trip changes, duplicates or loses a resource.",
          "3 resources; orders that brood's type machinery rejects at compile time cannot be exercised.", "6 C15"),
- "C16": ("exploration", "TLC trace validation of world equality",
-         "== is logged for every ordered pair of live worlds after every event; TLC checks reflexivity, symmetry, eq => same identifiers/values/resources, and eq right after clone and round trip; twins that are then mutated exercise the contrapositive.",
+ "C16": ("model_checking", "TLC model checking of the strict equality operator (Inv_C16) + TLC trace validation of world equality",
+         "WorldStore!StoreEq (len, tables by bytes with identifier and component columns in order, slots, free list in order) is reflexive, symmetric and implies equal reference maps on every pair of reachable stores of the 2-world model; on real worlds the logged == is compared with StoreEq evaluated on the observed stores (drift). == is logged for every ordered pair of live worlds after every event; TLC checks reflexivity, symmetry, eq => same identifiers/values/resources, and eq right after clone and round trip; twins that are then mutated exercise the contrapositive.",
          "<=3 live worlds.", "6 C16"),
  "C03": ("exploration", "specification-derived query family executed on real Worlds, every result validated by TLC against the query semantics of spec/Access.tla evaluated on the reference map",
          "132 generated queries (view kinds alone and pairwise, orders, identifier view, nested filters, views as filters, World::entry, every Entries super/sub-view pairing, iteration combined with entry views) are run at random points of random histories; TLC checks the result set or multiset, per-item values and identities, None exactly when absent, writes visible on exactly the matched entities, and lo <= remaining <= hi for every size_hint.",
